@@ -60,16 +60,49 @@ Theorem C05_matcher_sees_declaration_order : forall (cs : list pclass) (vs : lis
 Proof. intros. rewrite unpack_pack. apply views_nth. assumption. Qed.
 
 (* THE forwarding theorem: for every shape, every argument vector of the right length, every
-   responder (returns / answers with an arbitrary answer function / unmock / default) and every
-   state of the caller's variables, the generated body
+   responder (returns / answers with an arbitrary answer function / unmock without or with a registered
+   function, in path or explicit-list form / default) and every state of the caller's variables, the generated body
      - evaluates exactly once, showing the matcher  pack (views args)  (declaration order),
      - on Answer applies the function to the receiver as declared and exactly  args  in order,
      - returns the answer's / Return's value unchanged,
      - leaves the caller's variables as the answer function left them *)
 Theorem C05_forwarding : forall (R : Type) (sh : shape) (args : list aval) (resp : responder R) (st : store),
-  length args = length (sh_params sh) ->
+  length args = length (sh_params sh) -> resp_wf (length (sh_params sh)) resp ->
   exec_body (gen_body sh) (init_env args) resp st = Some (forward_spec sh args resp st).
 Proof. exact forwarding. Qed.
+
+(* the Unmock arm, spelled out: on the direct template (&self, self, Rc/Arc/Box<Self>) the function registered in
+   path form is called with the mock as passed and exactly the caller's arguments in declaration order; in the
+   explicit form with exactly the listed expressions (each parameter named at most once, in range); its
+   result and its writes come back unchanged.  On the polonius template (&mut self, Pin<&mut Self>) there is
+   no such arm and the call is reported (finding F1 of C16). *)
+Theorem C05_unmock_arm : forall (R : Type) (sh : shape) (args : list aval) (fid : N) (f : real_fn R)
+                                (ps : option (list uexpr)) (st : store),
+  length args = length (sh_params sh) ->
+  match ps with Some l => uexprs_ok (length (sh_params sh)) l | None => True end ->
+  exec_body (gen_body sh) (init_env args) (KUnmockArm fid f ps) st =
+  Some (match receiver_of (sh_recv sh) with
+        | MOwned | MRef =>
+            let rargs := match ps with
+                         | None => RSelf SelfAsPassed :: map RVal args
+                         | Some l => select l args
+                         end in
+            ([EvEval (pack (views (sh_params sh) args)); EvReal fid rargs], Returned (fst (f rargs st)), snd (f rargs st))
+        | MMutRef | MPin => ([EvEval (pack (views (sh_params sh) args))], Reported, st)
+        end).
+Proof.
+  intros R sh args fid f ps st HL HW.
+  rewrite (forwarding R sh args (KUnmockArm fid f ps) st HL); [reflexivity|]. destruct ps; exact HW.
+Qed.
+
+(* which function: the entry written at the method's own position among ALL fn items of the trait -- receiver-less
+   provided functions the macro skips still occupy a slot, `_` entries are not compacted away *)
+Theorem C05_unmock_slot : forall (items : list bool) (uw : list uentry) (k : nat) (fid : N) (ps : option (list uexpr)),
+  unmock_of items (Some uw) k = Some (fid, ps) <->
+  exists i, nth_error items i = Some true /\ count_mocked (firstn i items) = k /\
+            ((nth_error uw i = Some (UPath fid) /\ ps = None) \/
+             (exists l, nth_error uw i = Some (UCall fid l) /\ ps = Some l)).
+Proof. exact unmock_of_spec. Qed.
 
 (* &mut: whatever the answer function does to the store through the (caller's own) unique
    borrows it received is what the caller finds afterwards *)
@@ -84,14 +117,14 @@ Proof. exact answer_store. Qed.
 
 (* sync methods evaluate at the call *)
 Theorem C05_sync_runs_at_call : forall (R : Type) (sh : shape) (args : list aval) (resp : responder R) (st : store),
-  deferred sh = false -> length args = length (sh_params sh) ->
+  deferred sh = false -> length args = length (sh_params sh) -> resp_wf (length (sh_params sh)) resp ->
   call_method sh args resp st = Now (Some (forward_spec sh args resp st)).
 Proof. exact sync_runs_at_call. Qed.
 
 (* async flavours (async fn, -> impl Future, #[async_trait]): the call only builds the future;
    awaiting it is the forwarding above; dropping it unpolled does nothing *)
 Theorem C05_async_deferred : forall (R : Type) (sh : shape) (args : list aval) (resp : responder R) (st : store),
-  ~ Known sh -> deferred sh = true -> length args = length (sh_params sh) ->
+  ~ Known sh -> deferred sh = true -> length args = length (sh_params sh) -> resp_wf (length (sh_params sh)) resp ->
   exists fut, call_method sh args resp st = Later fut
     /\ (forall st', await fut st' = Some (forward_spec sh args resp st'))
     /\ (forall st', drop_unpolled fut st' = ([], Reported, st')).
@@ -100,7 +133,7 @@ Proof. exact async_deferred. Qed.
 (* over any script of calls: the number of evaluations (and of answer invocations) is the number
    of calls that ran -- every call of a sync method, exactly the AWAITED ones of an async method *)
 Theorem C05_once_per_await : forall (R : Type) (sh : shape) (resp : responder R) (calls : list (use * list aval * store)),
-  ~ Known sh ->
+  ~ Known sh -> resp_wf (length (sh_params sh)) resp ->
   Forall (fun c => length (snd (fst c)) = length (sh_params sh)) calls ->
   exists tr, run_calls sh resp calls = Some tr
     /\ count_evals tr = ran_calls sh calls
@@ -142,5 +175,17 @@ Example C05_nonvacuous :
                              Returned 11%N, [(1, 1012); (3, 1014)]%N))
   /\ gen_body {| sh_recv := RcvOwned; sh_params := [PStr]; sh_ret := RetUnit; sh_flavour := FSync;
                  sh_trait_generic := false; sh_api := ApiModule |}
-     = BDirect SxRefSelf (TOne (AId 0)) (TOne (AId 0)) SxSelf [AId 0].
-Proof. cbn zeta. split; [reflexivity|]. split; [|reflexivity]. eexists. split; vm_compute; reflexivity. Qed.
+     = BDirect SxRefSelf (TOne (AId 0)) (TOne (AId 0)) SxSelf [AId 0]
+  (* unmock_with=[real0, _, _, real3(self, b, a)] on a trait whose third fn item is a skipped receiver-less function:
+     the third MOCKED method (k = 2) sits at index 3 and is unmocked by real3 with the listed expressions *)
+  /\ unmock_of [true; true; false; true] (Some [UPath 0; UNone; UNone; UCall 3 [USelf; UParam 1; UParam 0]]) 2
+     = Some (3%N, Some [USelf; UParam 1; UParam 0])
+  /\ exec_body (gen_body {| sh_recv := RcvRef; sh_params := [POwned; POwned]; sh_ret := RetVal; sh_flavour := FSync;
+                            sh_trait_generic := false; sh_api := ApiModule |})
+               (init_env [VArg 21; VArg 22]) (KUnmockArm 3 (fun ra s => (7%N, s)) (Some [USelf; UParam 1; UParam 0])) []
+     = Some ([EvEval (InTup [VArg 21; VArg 22]); EvReal 3 [RSelf SelfAsPassed; RVal (VArg 22); RVal (VArg 21)]],
+             Returned 7%N, []).
+Proof.
+  cbn zeta. split; [reflexivity|]. split; [eexists; split; vm_compute; reflexivity|].
+  split; [reflexivity|]. split; vm_compute; reflexivity.
+Qed.
